@@ -183,6 +183,9 @@ def analyse(case, io):
                 add("C02:delivered-before-siblings-done", "yield-resumed-early",
                     "task %s received the result of yield #%d before %s had completed" % (list(t), k, unc))
             if okay != "true" and expt != "Uncomputed":
+                if "Ok" in expt and "Err" in gott:
+                    add("C02:exception-delivery", "exception-at-yield-without-failed-future",
+                        "task %s yield #%d raised %s although every future it yielded succeeded (%s)" % (list(t), k, gott, expt))
                 if "Ok" in expt:
                     add("C01:received-value", "yield-result-differs",
                         "task %s yield #%d received %s, sequential evaluation of the yielded structure gives %s" % (list(t), k, gott, expt))
